@@ -27,7 +27,7 @@ MUTANTS = {
     "mask_edit_swap_transitions": (S + "generative_functions/combinators/mask.py", "        t_to_f = FlagOp.and_(pre_check, FlagOp.not_(post_check))", "        t_to_f = FlagOp.and_(FlagOp.not_(pre_check), post_check)", ["C14"]),
     "dimap_old_primals": (S + "generative_functions/combinators/dimap.py", "            (primals, inner_retval_primals),\n            (tangents, inner_retval_tangents),", "            (trace.get_args(), inner_retval_primals),\n            (tangents, inner_retval_tangents),", ["C15"]),
     "scan_assess_idx_from_one": (S + "generative_functions/combinators/scan.py", "            (0, carry),\n            scanned_in,\n            length=self.length,\n        )\n        return (\n            jnp.sum(scores),", "            (1, carry),\n            scanned_in,\n            length=self.length,\n        )\n        return (\n            jnp.sum(scores),", ["C12", "C02", "C01"]),
-    "importance_drop_proposal_weight": (S + "inference/smc.py", None, None, ["C26"]),
+    "importance_drop_proposal_weight": (S + "inference/smc.py", "            jnp.array([target_score - log_weight]),", "            jnp.array([target_score]),", ["C26"]),
     "indexed_check0": (S + "core/generative/choice_map.py", "                    lambda v: Mask.build(v[idx], check[idx]),", "                    lambda v: Mask.build(v[idx], check[0]),", ["C17"]),
     "regenerate_keeps_old_value_weight": (S + "generative_functions/distributions/distribution.py", "            incremental_w = w - trace.get_score()\n", "            incremental_w = w\n", ["C07"]),
     "static_project_skips_last": (S + "generative_functions/static.py", "        for addr in trace.subtraces.keys():\n            subprojection = selection(addr)", "        for addr in list(trace.subtraces.keys())[: max(1, len(trace.subtraces) - 1) if len(trace.subtraces) > 2 else None]:\n            subprojection = selection(addr)", ["C10"]),
